@@ -16,7 +16,7 @@
    lemmas are reused.) *)
 From RxVerif Require Import Base.Prelude Ops.Machine Subjects.Subject Subjects.Family Subjects.Replay
   Subjects.ReplaySpec Subjects.ReplaySched Subjects.SubjectFacts Subjects.ReplayFacts Subjects.ReplayTreeFacts
-  Subjects.ReplayLiveFacts Subjects.ReplaySchedFacts.
+  Subjects.ReplayLiveFacts Subjects.ReplaySchedFacts Subjects.ReplayDrainFacts.
 
 (* ---- the main statements: for BOTH scheduler modes, ARBITRARY call trees
         (observers that subscribe, unsubscribe, emit, complete, dispose from
@@ -134,6 +134,57 @@ Theorem C22_stopped_wrapper_never_delivers :
 Proof. exact (@sstopped_final). Qed.
 Print Assumptions C22_stopped_wrapper_never_delivers.
 
+(* ---- the scheduler drained EXPLICITLY: the top level is an arbitrary PROGRAM of calls
+        and drains ([XOp p] / [XDrain], Subjects/ReplaySched.v), so unsubscribe, further
+        emissions, another subscribe or a clock advance happen while replay items are
+        still queued on the scheduler.  The three main statements hold for every program
+        (either scheduler mode, arbitrary call trees); the two fixed disciplines above
+        are the programs [xprog_of sync top]. ---- *)
+Theorem C22_fixed_drain_disciplines_are_programs :
+  forall (A : Type) (sync : bool) (bs w : option Z) (top : list (@rop A)),
+    sinit_cfg sync bs w top = xinit_cfg bs w (xprog_of sync top).
+Proof. exact (@sinit_cfg_is_xinit). Qed.
+Print Assumptions C22_fixed_drain_disciplines_are_programs.
+
+Theorem C22_explicit_drains_received_is_prefix_of_replay_then_later :
+  forall (A : Type) (sync : bool) (react : nat -> nat -> list (@rop A)) (bs w : option Z)
+         (prog : list (xtop A)) (fuel o : nat),
+    let c := srun sync react fuel (xinit_cfg bs w prog) in
+    prefix (rview o (slog_of c)) (xview (bufsize_of bs) w o false rg_init (ops_of (slog_of c))).
+Proof. exact (@xsched_prefix). Qed.
+Print Assumptions C22_explicit_drains_received_is_prefix_of_replay_then_later.
+
+Theorem C22_explicit_drains_nothing_lost :
+  forall (A : Type) (sync : bool) (react : nat -> nat -> list (@rop A)) (bs w : option Z)
+         (prog : list (xtop A)) (fuel o : nat) (os : @rostate A),
+    let c := srun sync react fuel (xinit_cfg bs w prog) in
+    sc_obs c o = Some os -> ra_stopped os = false ->
+    rview o (slog_of c) ++ sinflight o (sc_k c) ++ so_queue (r_so os) ++ spend o (sc_k c)
+    = xview (bufsize_of bs) w o false rg_init (ops_of (slog_of c)).
+Proof. exact (@xsched_nothing_lost). Qed.
+Print Assumptions C22_explicit_drains_nothing_lost.
+
+(* completeness needs the scheduler to be run after the last call: [xclosed prog] = every
+   call of the program has a drain somewhere behind it (not needed on the default
+   scheduler, which drains inline) *)
+Theorem C22_explicit_drains_finished_run_delivers_everything :
+  forall (A : Type) (sync : bool) (react : nat -> nat -> list (@rop A)) (bs w : option Z)
+         (prog : list (xtop A)) (fuel o : nat) (os : @rostate A),
+    (sync = false -> xclosed prog = true) ->
+    let c := srun sync react fuel (xinit_cfg bs w prog) in
+    sc_k c = [] -> sc_obs c o = Some os ->
+    (ra_stopped os = false \/ has_term (rview o (slog_of c)) = true) ->
+    rview o (slog_of c) = xview (bufsize_of bs) w o false rg_init (ops_of (slog_of c)).
+Proof. exact (@xsched_complete). Qed.
+Print Assumptions C22_explicit_drains_finished_run_delivers_everything.
+
+Theorem C22_explicit_drains_views_wellformed :
+  forall (A : Type) (sync : bool) (react : nat -> nat -> list (@rop A)) (bs w : option Z)
+         (prog : list (xtop A)) (fuel o : nat),
+    wellformed (rview o (slog_of (srun sync react fuel (xinit_cfg bs w prog)))) = true.
+Proof. exact (@xsched_wellformed). Qed.
+Print Assumptions C22_explicit_drains_views_wellformed.
+
 (* ---- witnesses (pool ids; clock in ticks) ---- *)
 (* virtual time; buffer 2, window 2: values at t=0,1,1; subscriber at t=3 gets the last two
    whose age (2) equals the window -- retained; at t=4 (age 3) nothing *)
@@ -189,3 +240,39 @@ Example C22_witness_finished :
   sc_k c = [] /\ (exists os, sc_obs c 1%nat = Some os /\ ra_stopped os = false) /\
   rview 1%nat (slog_of c) = [Next 5; Next 6].
 Proof. vm_compute. split; [reflexivity|]. split; [eexists; split; reflexivity|reflexivity]. Qed.
+
+(* explicit drains: subscribe, then unsubscribe BEFORE the scheduler runs -- the queued replay
+   (two values) is cancelled, nothing is delivered *)
+Example C22_witness_unsubscribe_before_the_scheduler_runs :
+  run_xhistory false None None 1000
+    ([XOp (RNext 0); XOp (RNext 1); XOp (RSub 0%nat); XOp (RUnsub 0%nat); XDrain], [])
+  = ([REOp (RNext 0); REOp (RNext 1); REOp (RSub 0%nat); REOp (RUnsub 0%nat)], true).
+Proof. vm_compute. reflexivity. Qed.
+
+(* explicit drains: an emission, a second subscriber and a clock advance while observer 0's
+   replay is still queued; one drain delivers everything, round-robin between the two
+   ScheduledObservers, each in its own order *)
+Example C22_witness_calls_while_replay_is_queued :
+  run_xhistory false None None 1000
+    ([XOp (RNext 0); XOp (RSub 0%nat); XOp (RNext 1); XOp (RSub 1%nat); XOp (RAdvance 1); XDrain], [])
+  = ([REOp (RNext 0); REOp (RSub 0%nat); REOp (RNext 1); REOp (RSub 1%nat); REOp (RAdvance 1);
+      REGot 0%nat (Next 0); REGot 1%nat (Next 0); REGot 0%nat (Next 1); REGot 1%nat (Next 1)], true).
+Proof. vm_compute. reflexivity. Qed.
+
+(* explicit drains: the retained set is fixed AT subscription (age 2 = window: retained) although
+   the replay is only delivered 5 ticks later; observer 1 (subscribing at t=8) gets only the value of t=7 *)
+Example C22_witness_replay_fixed_at_subscription :
+  run_xhistory false (Some 2) (Some 2) 1000
+    ([XOp (RNext 0); XOp (RAdvance 2); XOp (RSub 0%nat); XOp (RAdvance 5); XOp (RNext 1); XDrain;
+      XOp (RAdvance 1); XOp (RSub 1%nat); XDrain], [])
+  = ([REOp (RNext 0); REOp (RAdvance 2); REOp (RSub 0%nat); REOp (RAdvance 5); REOp (RNext 1);
+      REGot 0%nat (Next 0); REGot 0%nat (Next 1); REOp (RAdvance 1); REOp (RSub 1%nat); REGot 1%nat (Next 1)], true).
+Proof. vm_compute. reflexivity. Qed.
+
+(* the hypotheses of the explicit-drain completeness theorem are satisfiable *)
+Example C22_witness_explicit_finished :
+  let prog := [XOp (RNext 0); XOp (RSub 0%nat); XOp (RNext 1); XOp (RSub 1%nat); XDrain] in
+  let c := srun false (rreact_tbl []) 1000 (xinit_cfg None None prog) in
+  xclosed prog = true /\ sc_k c = [] /\ (exists os, sc_obs c 1%nat = Some os /\ ra_stopped os = false) /\
+  rview 1%nat (slog_of c) = [Next 0; Next 1].
+Proof. vm_compute. split; [reflexivity|]. split; [reflexivity|]. split; [eexists; split; reflexivity|reflexivity]. Qed.
